@@ -344,7 +344,7 @@ def durVal (t : Track) : Dur → Int
   | .frames n k => dotsVal k n.v (n.v / 2)
 
 /-- side conditions on the numbers of a duration: an `int`, and one `read_duration` accepts.
-(No bound on the dotted value any more: since fix a16b488 `read_duration` adds the dots in
+(No bound on the dotted value any more: since fix 299434d `read_duration` adds the dots in
 `long long`, and the sum stays below 2^32 — `wrapU32_dotsVal`.) -/
 def DurNums : Dur → Prop
   | .dflt _ => True
